@@ -42,11 +42,39 @@ type Ctx struct {
 	Raw     string `json:"raw,omitempty"`
 }
 
-// Handler is a function the generated script defines; Status[i] is its exit status when
-// the current context index is i (missing = 0).  For __config__ Status[0] is used.
+// Cmd is one command of a handler body.  Op names the shape, St the exit statuses of the
+// simple commands in it (one for plain/ortrue/andtrue/if/not/return/exit, the components
+// of a pipe, the commands of the inner block of group/call/subst/localsubst), Form how
+// each of those simple commands is spelled (see plainText; missing = 0).
+//
+//	plain       P                      ortrue   P || true        andtrue  P && true
+//	pipe        P1 | P2 | ...          if       if P; then :; fi not      ! P
+//	return      return N               exit     exit N           unset    : "${never_set}"
+//	group       ( P1; P2; ... )        call     helper (a function with body P1; P2; ...)
+//	subst       v=$( P1; P2; ... )     localsubst  local v=$( P1; P2; ... )
+type Cmd struct {
+	Op   string `json:"op"`
+	St   []int  `json:"st,omitempty"`
+	Form []int  `json:"form,omitempty"`
+}
+
+// Arm: the commands a handler runs when the current context index is Index.
+type Arm struct {
+	Index int   `json:"index"`
+	Body  []Cmd `json:"body"`
+}
+
+// Handler is a function the generated script defines.  It runs Body (or the arm of the
+// current context index) under the strict mode of shell_lib.sh and then - unless Falloff -
+// does an explicit `return Status[i]` for context index i (missing = 0).  With Falloff the
+// function has no final return: its status is that of its last command.  For __config__
+// index 0 is used.
 type Handler struct {
-	Name   string `json:"name"`
-	Status []int  `json:"status,omitempty"`
+	Name    string `json:"name"`
+	Status  []int  `json:"status,omitempty"`
+	Falloff bool   `json:"falloff,omitempty"`
+	Body    []Cmd  `json:"body,omitempty"`
+	Arms    []Arm  `json:"arms,omitempty"`
 }
 
 type Input struct {
@@ -63,12 +91,13 @@ type Entry struct {
 }
 
 type Obs struct {
-	Trace   []Entry `json:"trace"`
-	Status  int     `json:"status"`
-	Printed bool    `json:"printed"`
-	Stdout  string  `json:"stdout,omitempty"`
-	Stderr  string  `json:"stderr_tail,omitempty"`
-	Err     string  `json:"err,omitempty"`
+	Trace   []Entry    `json:"trace"`
+	Steps   [][][2]int `json:"steps,omitempty"` // per invocation: marks (position, inner position) of the commands that started
+	Status  int        `json:"status"`
+	Printed bool       `json:"printed"`
+	Stdout  string     `json:"stdout,omitempty"`
+	Stderr  string     `json:"stderr_tail,omitempty"`
+	Err     string     `json:"err,omitempty"`
 }
 
 const configText = "VERIF-CONFIG-TEXT"
@@ -135,34 +164,237 @@ func ContextsJSON(in Input) ([]byte, error) {
 	return list.Json()
 }
 
+var ops = map[string]string{"plain": "Plain", "pipe": "Pipe", "ortrue": "OrTrue", "andtrue": "AndTrue", "if": "IfCond",
+	"not": "Not", "return": "Return", "exit": "Exit", "unset": "Unset", "group": "Group", "call": "Call", "subst": "Subst",
+	"localsubst": "LocalSubst"}
+
+func isBlock(op string) bool {
+	return op == "group" || op == "call" || op == "subst" || op == "localsubst"
+}
+
+// normCmd makes a command from a hand-edited replay file well-formed (generated ones are):
+// known op, statuses 0..255, exactly one status where the shape has one.
+func normCmd(c Cmd) Cmd {
+	if _, ok := ops[c.Op]; !ok {
+		return Cmd{Op: "plain", St: []int{0}}
+	}
+	n := Cmd{Op: c.Op}
+	for _, x := range c.St {
+		n.St = append(n.St, ((x%256)+256)%256)
+	}
+	switch {
+	case c.Op == "unset":
+		n.St = nil
+	case c.Op == "pipe" || isBlock(c.Op):
+	default:
+		if len(n.St) == 0 {
+			n.St = []int{0}
+		}
+		n.St = n.St[:1]
+	}
+	for i := range n.St {
+		f := 0
+		if i < len(c.Form) {
+			f = c.Form[i]
+		}
+		n.Form = append(n.Form, f)
+	}
+	return n
+}
+
+func normBody(b []Cmd) []Cmd {
+	var r []Cmd
+	for _, c := range b {
+		r = append(r, normCmd(c))
+	}
+	return r
+}
+
+// norm: the input as Script and Render read it.
+func norm(in Input) Input {
+	out := in
+	out.Defined = nil
+	for _, h := range in.Defined {
+		n := Handler{Name: h.Name, Falloff: h.Falloff, Body: normBody(h.Body)}
+		for _, x := range h.Status {
+			n.Status = append(n.Status, ((x%256)+256)%256)
+		}
+		seen := map[int]bool{}
+		for _, a := range h.Arms {
+			if a.Index < 0 || seen[a.Index] {
+				continue
+			}
+			seen[a.Index] = true
+			n.Arms = append(n.Arms, Arm{Index: a.Index, Body: normBody(a.Body)})
+		}
+		out.Defined = append(out.Defined, n)
+	}
+	return out
+}
+
+// plainText spells a simple command that exits with status st.
+func plainText(st, form int) string {
+	switch form {
+	case 1:
+		return fmt.Sprintf("(exit %d)", st)
+	case 2:
+		return fmt.Sprintf("sh -c 'exit %d'", st)
+	case 3:
+		if st == 0 {
+			return "true"
+		}
+		if st == 1 {
+			return "false"
+		}
+	case 4:
+		if st == 0 {
+			return "[[ -d / ]]"
+		}
+		if st == 1 {
+			return "[[ -f /nonexistent-verif ]]"
+		}
+	case 5:
+		switch st {
+		case 0:
+			return "test 1 -eq 1"
+		case 1:
+			return "grep -q verif /dev/null"
+		case 2:
+			return "grep -q x /nonexistent-verif 2>/dev/null"
+		}
+	case 6:
+		if st == 0 {
+			return ":"
+		}
+		if st == 1 {
+			return "cat /nonexistent-verif >/dev/null 2>&1"
+		}
+	}
+	return fmt.Sprintf("__verif_st %d", st)
+}
+
+func blockText(k int, c Cmd) string {
+	var parts []string
+	for j, st := range c.St {
+		parts = append(parts, fmt.Sprintf("__verif_s %d %d; %s", k, j+1, plainText(st, c.Form[j])))
+	}
+	if len(parts) == 0 {
+		return ":"
+	}
+	return strings.Join(parts, "; ")
+}
+
+// cmdText: the bash text of command k of a body; helper receives the definition of the
+// function a `call` needs.
+func cmdText(k int, c Cmd, helperName string, helpers *strings.Builder) string {
+	p := func(i int) string { return plainText(c.St[i], c.Form[i]) }
+	switch c.Op {
+	case "plain":
+		return p(0)
+	case "pipe":
+		var parts []string
+		for i := range c.St {
+			parts = append(parts, p(i))
+		}
+		if len(parts) == 0 {
+			return ":"
+		}
+		return strings.Join(parts, " | ")
+	case "ortrue":
+		return p(0) + " || true"
+	case "andtrue":
+		return p(0) + " && true"
+	case "if":
+		return "if " + p(0) + "; then :; fi"
+	case "not":
+		return "! " + p(0)
+	case "return":
+		return fmt.Sprintf("return %d", c.St[0])
+	case "exit":
+		return fmt.Sprintf("exit %d", c.St[0])
+	case "unset":
+		return `: "${__verif_never_set}"`
+	case "group":
+		return "( " + blockText(k, c) + " )"
+	case "call":
+		fmt.Fprintf(helpers, "function %s() { %s; }\n", helperName, blockText(k, c))
+		return helperName
+	case "subst":
+		return "__verif_v=$( " + blockText(k, c) + " )"
+	case "localsubst":
+		return "local __verif_l=$( " + blockText(k, c) + " )"
+	}
+	return ":"
+}
+
+func statusAt(h Handler, i int) int {
+	if i >= 0 && i < len(h.Status) {
+		return h.Status[i]
+	}
+	return 0
+}
+
+// writeCmds writes the commands of one arm (or of the default body), each preceded by its
+// mark, and the final explicit return unless the handler runs to its end.
+func writeCmds(b, helpers *strings.Builder, indent string, hi int, arm string, cmds []Cmd, h Handler, final int) {
+	for k, c := range cmds {
+		fmt.Fprintf(b, "%s__verif_s %d 0\n%s%s\n", indent, k, indent, cmdText(k, c, fmt.Sprintf("__verif_f_%d_%s_%d", hi, arm, k), helpers))
+	}
+	if !h.Falloff {
+		fmt.Fprintf(b, "%s__verif_s %d 0\n%sreturn %d\n", indent, len(cmds), indent, final)
+	}
+}
+
 // Script is the generated hook.
 func Script(in Input) string {
+	in = norm(in)
 	var b strings.Builder
 	b.WriteString("#!/usr/bin/env bash\n")
 	b.WriteString("source \"$VERIF_LIB\"\n")
 	b.WriteString("__verif_h() { printf '%s\\t%s\\t%s\\n' \"$1\" \"${BINDING_CONTEXT_CURRENT_INDEX:-}\" \"${BINDING_CONTEXT_CURRENT_BINDING:-}\" >> \"$VERIF_TRACE\"; }\n")
-	for _, h := range in.Defined {
+	b.WriteString("__verif_s() { printf '@\\t%s\\t%s\\n' \"$1\" \"$2\" >> \"$VERIF_TRACE\"; }\n")
+	b.WriteString("__verif_st() { return \"$1\"; }\n")
+	for hi, h := range in.Defined {
 		if !safeName.MatchString(h.Name) {
 			continue // never generated; a replay file edited by hand cannot inject shell text
 		}
-		fmt.Fprintf(&b, "function %s() {\n  __verif_h '%s'\n", h.Name, h.Name)
+		var f, helpers strings.Builder
+		fmt.Fprintf(&f, "function %s() {\n  __verif_h '%s'\n", h.Name, h.Name)
 		if h.Name == "__config__" {
-			fmt.Fprintf(&b, "  echo '%s'\n", configText)
+			fmt.Fprintf(&f, "  echo '%s'\n", configText)
 		}
-		any := false
-		for i, s := range h.Status {
-			if s != 0 {
-				if !any {
-					b.WriteString("  case \"${BINDING_CONTEXT_CURRENT_INDEX:-0}\" in\n")
-					any = true
+		// arms: the indices with their own commands or a non-zero final status
+		arms := map[int][]Cmd{}
+		var idx []int
+		for _, a := range h.Arms {
+			arms[a.Index] = a.Body
+			idx = append(idx, a.Index)
+		}
+		if !h.Falloff {
+			for i, st := range h.Status {
+				if _, ok := arms[i]; st != 0 && !ok {
+					arms[i] = h.Body
+					idx = append(idx, i)
 				}
-				fmt.Fprintf(&b, "    %d) return %d;;\n", i, s)
 			}
 		}
-		if any {
-			b.WriteString("  esac\n")
+		sort.Ints(idx)
+		if len(idx) == 0 {
+			writeCmds(&f, &helpers, "  ", hi, "d", h.Body, h, 0)
+		} else {
+			f.WriteString("  case \"${BINDING_CONTEXT_CURRENT_INDEX:-0}\" in\n")
+			for _, i := range idx {
+				fmt.Fprintf(&f, "  %d)\n", i)
+				writeCmds(&f, &helpers, "    ", hi, strconv.Itoa(i), arms[i], h, statusAt(h, i))
+				f.WriteString("    ;;\n")
+			}
+			f.WriteString("  *)\n")
+			writeCmds(&f, &helpers, "    ", hi, "d", h.Body, h, 0)
+			f.WriteString("    ;;\n  esac\n")
 		}
-		b.WriteString("  return 0\n}\n")
+		f.WriteString("}\n")
+		b.WriteString(helpers.String())
+		b.WriteString(f.String())
 	}
 	b.WriteString("hook::run \"$@\"\n")
 	return b.String()
@@ -240,6 +472,16 @@ func Run(in Input) Obs {
 				o.Err = "bad trace line: " + line
 				continue
 			}
+			if f[0] == "@" { // the mark of a command of the handler invoked last
+				k, e1 := strconv.Atoi(f[1])
+				j, e2 := strconv.Atoi(f[2])
+				if e1 != nil || e2 != nil || len(o.Steps) == 0 {
+					o.Err = "bad mark line: " + line
+					continue
+				}
+				o.Steps[len(o.Steps)-1] = append(o.Steps[len(o.Steps)-1], [2]int{k, j})
+				continue
+			}
 			idx := 0
 			if f[1] != "" {
 				if idx, err = strconv.Atoi(f[1]); err != nil {
@@ -247,6 +489,7 @@ func Run(in Input) Obs {
 				}
 			}
 			o.Trace = append(o.Trace, Entry{Name: f[0], Index: idx, Binding: f[2]})
+			o.Steps = append(o.Steps, [][2]int{})
 		}
 	}
 	return o
@@ -313,17 +556,26 @@ func Render(in Input, obs *Obs, crash string) core.Case {
 	if status < 0 || o.Err != "" {
 		status = 9999 // the harness could not run or read the case: never equal to a model status
 	}
+	kb, _ := json.Marshal(in)
+	in = norm(in)
 	ctxs, readable := coqCtxs(in)
 	exotic := in.Exotic || !readable
 	defs := core.CoqList(in.Defined, func(h Handler) string {
-		return fmt.Sprintf("(%s, %s)", core.CoqBytes(h.Name), core.CoqList(h.Status, core.CoqN))
+		return fmt.Sprintf("mkH %s %s %s %s %s", core.CoqBytes(h.Name), core.CoqList(h.Status, core.CoqN), core.CoqBool(h.Falloff),
+			coqBody(h.Body), core.CoqList(h.Arms, func(a Arm) string { return fmt.Sprintf("(%d, %s)", a.Index, coqBody(a.Body)) }))
 	})
+	steps := o.Steps
+	for len(steps) < len(o.Trace) { // (an observation from an old replay file)
+		steps = append(steps, nil)
+	}
 	c := core.Case{}
-	c.Coq = fmt.Sprintf("mkCase %s %s\n   %s\n   %s\n   (mkObs %s %d %s)", core.CoqBool(exotic),
+	c.Coq = fmt.Sprintf("mkCase %s %s\n   %s\n   %s\n   (mkObsB (mkObs %s %d %s) %s)", core.CoqBool(exotic),
 		core.CoqList(in.Args, core.CoqBytes), ctxs, defs,
-		core.CoqList(o.Trace, coqEntry), status, core.CoqBool(o.Printed))
+		core.CoqList(o.Trace, coqEntry), status, core.CoqBool(o.Printed),
+		core.CoqList(steps, func(ss [][2]int) string {
+			return core.CoqList(ss, func(m [2]int) string { return fmt.Sprintf("(%d, %d)", m[0], m[1]) })
+		}))
 	c.JSON = o
-	kb, _ := json.Marshal(in)
 	c.Key = string(kb)
 	config := len(in.Args) > 0 && in.Args[0] == "--config"
 	if config {
@@ -338,6 +590,7 @@ func Render(in Input, obs *Obs, crash string) core.Case {
 			c.Tags = append(c.Tags, "invoked:"+handlerClass(e.Name))
 		}
 	}
+	c.Tags = append(c.Tags, bodyTags(in, o)...)
 	switch {
 	case status == 0:
 		c.Tags = append(c.Tags, "exit:0")
@@ -357,6 +610,112 @@ func Render(in Input, obs *Obs, crash string) core.Case {
 			"names_as_atoms_would_call": exp, "differs_from_atoms_reading": !sameCalls(exp, o.Trace)})
 	}
 	return c
+}
+
+func coqCmd(c Cmd) string {
+	switch {
+	case c.Op == "unset":
+		return "Unset"
+	case c.Op == "pipe" || isBlock(c.Op):
+		return ops[c.Op] + " " + core.CoqList(c.St, core.CoqN)
+	}
+	return fmt.Sprintf("%s %d", ops[c.Op], c.St[0])
+}
+
+func coqBody(b []Cmd) string { return core.CoqList(b, coqCmd) }
+
+// cmdsAt: the commands handler h runs at context index i (without the final return).
+func cmdsAt(h Handler, i int) []Cmd {
+	for _, a := range h.Arms {
+		if a.Index == i {
+			return a.Body
+		}
+	}
+	return h.Body
+}
+
+// bodyTags describes, from the OBSERVED marks, how the invoked handlers' bodies ended:
+//
+//	body:none              no invoked handler has commands besides the final return
+//	body:ops:<op>          an invoked handler's commands contain this shape
+//	body:no-final-return   an invoked handler has no final explicit return (its status is its last command's)
+//	body:all-started       every command of an invoked body started
+//	body:stopped-mid       an invoked body stopped at a command after which further commands remained,
+//	body:stopped-at:<op>   ... that command having this shape,
+//	body:stopped-mid-with-contexts-left   ... with binding contexts left after that invocation
+//	body:run-continued-after-tolerated-failure   a command failed in a tested position and later handlers ran
+func bodyTags(in Input, o Obs) []string {
+	set := map[string]bool{}
+	byName := map[string]Handler{}
+	for _, h := range in.Defined {
+		if _, ok := byName[h.Name]; !ok {
+			byName[h.Name] = h
+		}
+	}
+	any := false
+	for n, e := range o.Trace {
+		h, ok := byName[e.Name]
+		if !ok || n >= len(o.Steps) {
+			continue
+		}
+		cmds := cmdsAt(h, e.Index)
+		if len(cmds) == 0 {
+			continue
+		}
+		any = true
+		if h.Falloff {
+			set["body:no-final-return"] = true
+		}
+		tolerated := false
+		for _, c := range cmds {
+			set["body:ops:"+c.Op] = true
+			if (c.Op == "ortrue" || c.Op == "if" || c.Op == "andtrue" || c.Op == "localsubst") && anyNonzero(c.St) {
+				tolerated = true
+			}
+		}
+		top := -1
+		for _, m := range o.Steps[n] {
+			if m[1] == 0 && m[0] > top {
+				top = m[0]
+			}
+		}
+		total := len(cmds)
+		if !h.Falloff {
+			total++
+		}
+		switch {
+		case top < 0:
+		case top >= total-1:
+			set["body:all-started"] = true
+			if tolerated && n+1 < len(o.Trace) {
+				set["body:run-continued-after-tolerated-failure"] = true
+			}
+		default: // commands after number top never started
+			set["body:stopped-at:"+cmds[top].Op] = true
+			set["body:stopped-mid"] = true
+			if n+1 < len(in.Ctxs) && !(len(in.Args) > 0 && in.Args[0] == "--config") {
+				set["body:stopped-mid-with-contexts-left"] = true
+			}
+		}
+	}
+	if !any {
+		return []string{"body:none"}
+	}
+	var r []string
+	for k := range set {
+		r = append(r, k)
+	}
+	sort.Strings(r)
+	return r
+}
+
+func anyNonzero(xs []int) bool {
+	for _, x := range xs {
+		if x != 0 {
+			return true
+		}
+	}
+	return false
 }
 
 func lastLine(s string) string {
@@ -701,6 +1060,165 @@ func randomInput(r *core.Rng) Input {
 	return in
 }
 
+// ---- handler bodies ----
+
+const nForms = 7
+
+func plain(st, form int) Cmd { return Cmd{Op: "plain", St: []int{st}, Form: []int{form}} }
+
+func one(op string, st, form int) Cmd { return Cmd{Op: op, St: []int{st}, Form: []int{form}} }
+
+func many(op string, sts ...int) Cmd {
+	c := Cmd{Op: op, St: sts}
+	for i := range sts {
+		c.Form = append(c.Form, i%2) // function / subshell alternately
+	}
+	return c
+}
+
+// strictCatalogue: one command of every shape and of every way to fail or to be tolerated.
+func strictCatalogue() []Cmd {
+	cs := []Cmd{}
+	for f := 0; f < nForms; f++ {
+		cs = append(cs, plain(1, f)) // every spelling of a failing simple command
+	}
+	cs = append(cs, plain(3, 0), plain(42, 1), plain(2, 5), plain(255, 2),
+		many("pipe", 1, 0), many("pipe", 0, 1), many("pipe", 0, 2, 0), many("pipe", 3, 4), many("pipe", 4, 3, 0), many("pipe", 0, 0),
+		Cmd{Op: "pipe", St: []int{1, 0}, Form: []int{3, 3}}, Cmd{Op: "pipe", St: []int{1, 0}, Form: []int{6, 6}},
+		one("ortrue", 1, 0), one("ortrue", 1, 6), one("andtrue", 2, 0), one("andtrue", 0, 3), one("if", 1, 4), one("if", 0, 0),
+		one("not", 0, 3), one("not", 1, 3), one("not", 5, 0),
+		one("return", 0, 0), one("return", 5, 0), one("exit", 0, 0), one("exit", 7, 0), Cmd{Op: "unset"},
+		many("group", 0, 2, 0), many("group", 0, 0), many("call", 0, 2, 0), many("call", 3), many("call", 0, 0),
+		many("subst", 0, 2, 0), many("subst", 0, 0), many("localsubst", 0, 2, 0), many("localsubst", 1))
+	return cs
+}
+
+// strictSystematic: every command of the catalogue first / in the MIDDLE / last in the body of
+// the handler of context 0 (of 2), with and without a final explicit return (first / last: one
+// of the two, alternately); and in the arm
+// for context 1 of a handler that serves three contexts.
+func strictSystematic() []Input {
+	ctxs := []Ctx{mkCtx("schedule", "b1"), mkCtx("onStartup", "")}
+	same := []Ctx{mkCtx("schedule", "b1"), mkCtx("schedule", "b1"), mkCtx("schedule", "b1")}
+	var ins []Input
+	for n, x := range strictCatalogue() {
+		a, b := plain(0, n%nForms), plain(0, (n+3)%nForms)
+		for pos, body := range [][]Cmd{{x, a, b}, {a, x, b}, {a, b, x}} {
+			for fi, falloff := range []bool{false, true} {
+				if pos != 1 && fi != (n+pos/2)%2 {
+					continue // first / last: one of the two, alternately; middle: both
+				}
+				ins = append(ins, Input{Ctxs: ctxs, Defined: []Handler{
+					{Name: "__on_schedule::b1", Body: body, Falloff: falloff},
+					{Name: "__main__", Body: []Cmd{plain(0, pos)}, Falloff: !falloff}}})
+			}
+		}
+		ins = append(ins, Input{Ctxs: same, Defined: []Handler{
+			{Name: "__on_schedule::b1", Body: []Cmd{a}, Falloff: n%2 == 0, Arms: []Arm{{Index: 1, Body: []Cmd{a, x, b}}}}}})
+	}
+	return ins
+}
+
+func randomCmd(r *core.Rng, pFail int) Cmd {
+	st := 0
+	if r.Chance(pFail) {
+		st = failCodes[r.Intn(len(failCodes))]
+	}
+	tst := 0 // the status of a command in a tested position: fails half of the time
+	if r.Bool() {
+		tst = failCodes[r.Intn(len(failCodes))]
+	}
+	block := func(op string) Cmd {
+		c := Cmd{Op: op}
+		n := 1 + r.Intn(3)
+		at := r.Intn(n)
+		for i := 0; i < n; i++ {
+			x := 0
+			if (st != 0 && i == at) || r.Chance(5) {
+				x = failCodes[r.Intn(len(failCodes))]
+				if st != 0 && i == at {
+					x = st
+				}
+			}
+			c.St = append(c.St, x)
+			c.Form = append(c.Form, r.Intn(nForms))
+		}
+		return c
+	}
+	switch k := r.Intn(100); {
+	case k < 38:
+		return plain(st, r.Intn(nForms))
+	case k < 54:
+		c := block("pipe")
+		if len(c.St) < 2 {
+			c.St, c.Form = append(c.St, 0), append(c.Form, r.Intn(nForms))
+		}
+		return c
+	case k < 61:
+		return one("ortrue", tst, r.Intn(nForms))
+	case k < 66:
+		return one("andtrue", tst, r.Intn(nForms))
+	case k < 72:
+		return one("if", tst, r.Intn(nForms))
+	case k < 77:
+		return one("not", tst, r.Intn(nForms))
+	case k < 81:
+		if st == 0 && r.Chance(70) {
+			return plain(0, r.Intn(nForms))
+		}
+		return one("return", st, 0)
+	case k < 83:
+		if st == 0 && r.Chance(70) {
+			return plain(0, r.Intn(nForms))
+		}
+		return one("exit", st, 0)
+	case k < 85:
+		if st == 0 {
+			return plain(0, r.Intn(nForms))
+		}
+		return Cmd{Op: "unset"}
+	case k < 89:
+		return block("group")
+	case k < 93:
+		return block("call")
+	case k < 97:
+		return block("subst")
+	}
+	c := block("localsubst")
+	if tst != 0 {
+		c.St[r.Intn(len(c.St))] = tst
+	}
+	return c
+}
+
+func randomBody(r *core.Rng, pFail int) []Cmd {
+	var b []Cmd
+	for n := r.Intn(5); n > 0; n-- {
+		b = append(b, randomCmd(r, pFail))
+	}
+	return b
+}
+
+// bodyInput: a random input (as in the random stream) whose handlers get bodies.
+func bodyInput(r *core.Rng) Input {
+	in := randomInput(r)
+	pFail := []int{5, 15, 15, 30}[r.Intn(4)]
+	for i := range in.Defined {
+		h := &in.Defined[i]
+		if r.Chance(75) {
+			h.Body = randomBody(r, pFail)
+		}
+		h.Falloff = r.Chance(30)
+		if len(in.Ctxs) > 0 && r.Chance(25) {
+			h.Arms = append(h.Arms, Arm{Index: r.Intn(len(in.Ctxs)), Body: randomBody(r, 40)})
+		}
+		if r.Chance(50) { // leave failing to the body
+			h.Status = nil
+		}
+	}
+	return in
+}
+
 var exoticBindings = []string{"a b", "x y z", "a*", "?", "[ab]", "$HOME", "a;b", `a"b`, "a'b", "`id`", "-n", `a\b`, "", "café", "b1 __main__", "*"}
 
 var wordRe = regexp.MustCompile(`\S+`)
@@ -782,6 +1300,24 @@ func Corpus() []core.In[Input] {
 		{Ctxs: ex, Defined: handlers([]string{"__on_kubernetes::pods", "__on_schedule::pods"}, zero)},
 		{Ctxs: []Ctx{mkCtx("conversion", "conv")}, Defined: handlers([]string{"__on_conversion::conv", "__on_conversion::conv::stable.example.com.v1alpha1::stable.example.com.v1"}, zero)},
 	}
+	// handlers that fail because of strict mode, not by an explicit return: three schedule
+	// contexts, each with its own handler; in the second one a command in the middle fails
+	// and the last command succeeds (plain command / pipeline / called function); the same
+	// with the failure in a tested position (the run goes on); a handler without final
+	// return whose last command fails; an unset variable.
+	three := []Ctx{mkCtx("schedule", "first"), mkCtx("schedule", "second"), mkCtx("schedule", "third")}
+	mid := func(x Cmd, falloff bool) Input {
+		return Input{Ctxs: three, Defined: []Handler{
+			{Name: "__on_schedule::first", Body: []Cmd{plain(0, 3)}, Falloff: true},
+			{Name: "__on_schedule::second", Body: []Cmd{plain(0, 6), x, plain(0, 3)}, Falloff: falloff},
+			{Name: "__on_schedule::third", Body: []Cmd{plain(0, 0)}, Falloff: true}}}
+	}
+	ins = append(ins, mid(plain(1, 6), true), mid(plain(1, 3), false), mid(many("pipe", 0, 1, 0), true),
+		mid(Cmd{Op: "pipe", St: []int{1, 0}, Form: []int{5, 3}}, false), mid(many("call", 0, 2, 0), true),
+		mid(many("subst", 0, 4), false), mid(one("ortrue", 1, 6), true), mid(one("if", 1, 4), false), mid(Cmd{Op: "unset"}, true),
+		Input{Ctxs: three, Defined: []Handler{{Name: "__main__", Falloff: true, Body: []Cmd{plain(0, 0)},
+			Arms: []Arm{{Index: 1, Body: []Cmd{plain(0, 3), one("andtrue", 3, 0)}}}}}},
+		Input{Args: []string{"--config"}, Ctxs: three, Defined: []Handler{{Name: "__config__", Body: []Cmd{plain(0, 0), plain(1, 3), plain(0, 0)}}}})
 	var out []core.In[Input]
 	for _, in := range ins {
 		out = append(out, core.In[Input]{Input: in, Stream: "corpus"})
@@ -797,12 +1333,15 @@ func Gen(r *core.Rng, tier string) ([]core.In[Input], bool) {
 	for _, in := range exhaustiveSingles() {
 		ins = append(ins, core.In[Input]{Input: in, Stream: "exhaustive-1"})
 	}
-	nRandom, nExotic, pairs := 60, 24, false
+	for _, in := range strictSystematic() {
+		ins = append(ins, core.In[Input]{Input: in, Stream: "strict-systematic"})
+	}
+	nRandom, nExotic, pairs, nBody := 60, 24, false, 110
 	switch tier {
 	case "thorough":
-		nRandom, nExotic, pairs = 2500, 300, true
+		nRandom, nExotic, pairs, nBody = 2500, 300, true, 6000
 	case "search":
-		nRandom, nExotic, pairs = 600, 0, false
+		nRandom, nExotic, pairs, nBody = 600, 0, false, 1500
 	}
 	if pairs {
 		for _, in := range exhaustivePairs() {
@@ -832,6 +1371,10 @@ func Gen(r *core.Rng, tier string) ([]core.In[Input], bool) {
 	for i := 0; i < nExotic; i++ {
 		ins = append(ins, core.In[Input]{Input: exoticInput(re), Stream: "exotic"})
 	}
+	rb := r.Fork()
+	for i := 0; i < nBody; i++ {
+		ins = append(ins, core.In[Input]{Input: bodyInput(rb), Stream: "random-body"})
+	}
 	return ins, false
 }
 
@@ -850,7 +1393,8 @@ func Extra() map[string]any {
 		log = log[:30]
 	}
 	return map[string]any{
-		"partial":                   "bash 5.2 and jq 1.6 interpret the framework and are not modelled; only the handler-name table and the hook::run loop are (names as atoms)",
+		"partial":                   "bash 5.2 and jq 1.6 interpret the framework and are not modelled; only the handler-name table, the hook::run loop (names as atoms) and the effect of strict mode (errexit, pipefail, nounset, inherit_errexit, tested positions, return/exit, status of the last command) on the generated shapes of handler bodies are",
+		"handler_bodies":            "strict-systematic: a catalogue of ~50 commands (every shape, every spelling of a failing simple command, pipelines failing at each component, tested positions, return/exit 0 and non-zero, unset variable, subshell/called function/command substitution blocks) x {first, middle, last} in the body of the handler of context 0 of 2 x {final explicit return, none} (first/last: one of the two, alternately) + in the arm for context 1 of a handler serving 3 contexts; random-body: the random stream with 0-4 random commands per handler, 30% without final return, 25% with an arm for one context index; observed per invocation: the marks of the commands that started (tags body:*)",
 		"library":                   "real " + repoDir() + "/shell_lib.sh sourced through a copy whose only change is /frameworks/shell/ -> " + repoDir() + "/frameworks/shell/",
 		"context_file":              "rendered by the real pkg/hook/binding_context ConvertBindingContextList(v1)",
 		"exhaustive_scope":          "exhaustive-1: 13 context kinds x every subset of the kind's candidate handlers (+__main__) x exit status {0,1} x decoy handlers {absent,present}; exhaustive-2 (thorough): 13x13 ordered kind pairs under one binding x every subset of the union of candidates x {no failure, failure at index 0, failure at index 1}",
@@ -864,6 +1408,6 @@ func Extra() map[string]any {
 var Driver = core.Driver[Input, Obs]{
 	Spec: core.Spec{Property: "C19", Imports: []string{"C19_Model", "C19_Spec", "C19_Corr"}, Corr: "C19_Corr",
 		Triggers: []string{"F20", "XMODEL", "XSPEC"}, ShrinkKey: "ctxs",
-		Rule: "one run of a generated bash hook (real shell_lib.sh + frameworks/shell, scripted handler functions, trace file) per case; streams: corpus, exhaustive-1, exhaustive-2 (thorough), random (0-6 contexts, safe binding names, shuffled definitions, 8 exit codes, --config and other arguments), malformed (contexts the operator never produces; model only), trigger-F20 (typed binding named onStartup), exotic (triage only); non-trivial = dispatch over >=1 context with >=1 handler defined, or --config with __config__ defined; distinct = distinct input JSON"},
+		Rule: "one run of a generated bash hook (real shell_lib.sh + frameworks/shell, scripted handler functions, trace file) per case; streams: corpus, exhaustive-1, exhaustive-2 (thorough), strict-systematic and random-body (handlers with bodies of commands run under strict mode: a failing command / pipeline / unset variable / block in the middle followed by succeeding commands, tested positions, return/exit, no final return; the marks of the commands that started are compared), random (0-6 contexts, safe binding names, shuffled definitions, 8 exit codes, --config and other arguments), malformed (contexts the operator never produces; model only), trigger-F20 (typed binding named onStartup), exotic (triage only); non-trivial = dispatch over >=1 context with >=1 handler defined, or --config with __config__ defined; distinct = distinct input JSON"},
 	Gen: Gen, Run: Run, Render: Render, PerShard: 150, Workers: 12, CaseTimout: 40 * time.Second, Extra: Extra,
 }
